@@ -31,6 +31,7 @@
   The proofs are in `Proofs/Rewrite.lean`.
 -/
 import Ctrmml.Proofs.Rewrite
+import Ctrmml.Proofs.OptMeasure
 namespace Ctrmml.C01
 open Ctrmml Ctrmml.Tree Ctrmml.Expand Ctrmml.Rewrite Tables
 
@@ -520,3 +521,727 @@ example : chain S [S'] :=
 end Ex
 
 end Ctrmml.C01
+
+
+/-! # Layers 2–3: the executable optimiser (`Model/Optimizer.lean`) performs these rewrites
+
+`Opt.applyMatch` compares events with `sameEvent`, i.e. up to the param of a `LOOP_BREAK` (which
+the players use as scratch space).  The specification does not depend on those params
+(`OptSteps.perf_brk`), so a pass of the optimiser is a `Step` *up to `LOOP_BREAK` params*:
+`StepN`. -/
+namespace Ctrmml.C01
+open Ctrmml Ctrmml.Tree Ctrmml.Expand Ctrmml.Rewrite Ctrmml.Opt Ctrmml.OptSteps Tables
+
+/-- one optimiser pass up to `LOOP_BREAK` params: `S1` differs from `S` only in the params of
+`LOOP_BREAK` events (`BrkEqv`), and `S1 → S'` is one of the rewrites under its side conditions -/
+inductive StepN (S S' : Song) : Prop
+  | mk (S1 : Song) (hb : BrkEqv S S1) (hs : Step S1 S')
+
+theorem Step.toN {S S' : Song} (h : Step S S') : StepN S S' := ⟨S, BrkEqv.refl S, h⟩
+
+/-- every such step keeps every track and relates the performances -/
+theorem StepN.rel {S S' : Song} (h : StepN S S') {id : Nat} {t : List Event} (ht : S.track? id = some t) :
+    ∃ t', S'.track? id = some t' ∧ ResRel (perf S t) (perf S' t') := by
+  obtain ⟨S1, hb, hs⟩ := h
+  have h1 := hb id
+  rw [ht] at h1
+  cases ht1 : S1.track? id with
+  | none => rw [ht1] at h1; simp at h1
+  | some t1 =>
+    rw [ht1] at h1
+    simp only [Option.map_some, Option.some.injEq] at h1
+    obtain ⟨t', h2, hr⟩ := hs.rel ht1
+    exact ⟨t', h2, (perf_brk hb h1.symm).then_rel hr⟩
+
+theorem StepN.preserve {S S' : Song} (h : StepN S S') {id : Nat} (h0 : okTrack S id) (h1 : okTrack S' id) :
+    obsOf S' id = obsOf S id := by
+  obtain ⟨t, items, ht, hp⟩ := h0
+  obtain ⟨t', items', ht', hp'⟩ := h1
+  obtain ⟨t'', h2, hr⟩ := h.rel ht
+  rw [ht'] at h2
+  cases h2
+  simp only [obsOf, ht, ht', hp, hp', hr.sound hp hp']
+
+theorem StepN.accepts {S S' : Song} (h : StepN S S') {id : Nat} (h0 : okTrack S id)
+    (hd : ∀ t', S'.track? id = some t' → perf S' t' ≠ .error .depth) : okTrack S' id := by
+  obtain ⟨t, items, ht, hp⟩ := h0
+  obtain ⟨t', h2, hr⟩ := h.rel ht
+  obtain ⟨y, hy⟩ := hr.accepts hp (hd t' h2)
+  exact ⟨t', y, h2, hy⟩
+
+/-- `chainN S [S1, …, Sn]`: `S → S1 → … → Sn` are optimiser passes up to `LOOP_BREAK` params -/
+def chainN : Song → List Song → Prop
+  | _, [] => True
+  | S, S1 :: r => StepN S S1 ∧ chainN S1 r
+
+theorem chain.toN : ∀ (S : Song) (l : List Song), chain S l → chainN S l
+  | _, [], _ => trivial
+  | _, S1 :: r, h => ⟨h.1.toN, chain.toN S1 r h.2⟩
+
+/-- `C01_passes_preserve_nodepth` for passes up to `LOOP_BREAK` params -/
+theorem C01_passesN_preserve_nodepth (S : Song) (l : List Song) (hc : chainN S l) (id : Nat)
+    (h0 : okTrack S id)
+    (hall : ∀ T ∈ l, ∀ t', T.track? id = some t' → perf T t' ≠ .error .depth) :
+    okTrack (lastSong S l) id ∧ obsOf (lastSong S l) id = obsOf S id := by
+  induction l generalizing S with
+  | nil => exact ⟨h0, rfl⟩
+  | cons S1 r ih =>
+    obtain ⟨hs, hr⟩ := hc
+    have h1 : okTrack S1 id := hs.accepts h0 (hall S1 (List.mem_cons_self))
+    obtain ⟨i1, i2⟩ := ih S1 hr h1 (fun T hT => hall T (List.mem_cons_of_mem _ hT))
+    simp only [lastSong]
+    exact ⟨i1, by rw [i2]; exact hs.preserve h0 h1⟩
+
+/-! ## the loop branch of `apply_match` is a loop fold -/
+
+/-- **The loop branch of `apply_match` is one loop fold** (`Step.fold` if the matched length is
+not a multiple of the period — a `LOOP_BREAK` is emitted — and `Step.fold0` otherwise), up to
+`LOOP_BREAK` params.
+
+Hypotheses: `bm` satisfies the conditions under which `find_match` records a loop candidate
+(`LoopOK`; `findMatch_loopOK` below shows that every match returned by `find_match` with a
+non-zero `loopLength` does), the loop branch is taken, the rewritten track contains no explicit
+`END` event and its `LOOP_BREAK`s have zero duration (true of every song the MML front end and
+the optimiser produce), and the repeat count fits `int16_t` (`repeats = L/len + 1 (+1) < 32768`,
+neighbourhood of defect D2; implied by a track length below 32767).
+With `A = src[position, loopPosition)`, `k = L / |A|`, `bp = L % |A|`: `A0 = parse A[0,bp)`,
+`A1 = parse A[bp,|A|)`, `le.param = k + 2` (`k + 1` without remainder). -/
+theorem applyMatch_loop_is_step {song : Song} {m : SAMap} {bm : Match} {subId : Int} {src : List Event}
+    (hok : LoopOK song m bm) (hbr : ¬ bm.loopScore < bm.subScore)
+    (hsrc : song.track? bm.trackId = some src) (hne : NoEnd src) (hbz : BrkZero src)
+    (hrep : bm.loopLength / (bm.loopPosition - bm.position) + 2 < 32768) :
+    ∃ S', applyMatch song m bm subId = .ok (S', m, subId) ∧ StepN song S' ∧
+      S' = setTrack song bm.trackId (foldedTrack src bm.position bm.loopPosition bm.loopLength) := by
+  refine ⟨_, applyMatch_loop_eq hsrc hbr, ?_, rfl⟩
+  have hw := hok.window hsrc hbz
+  obtain ⟨p, hp⟩ : ∃ p, p = bm.position := ⟨_, rfl⟩
+  obtain ⟨q, hq⟩ : ∃ q, q = bm.loopPosition := ⟨_, rfl⟩
+  obtain ⟨L, hL⟩ : ∃ L, L = bm.loopLength := ⟨_, rfl⟩
+  have hpq : p < q := by rw [hp, hq]; exact hok.lt
+  rw [← hp, ← hq, ← hL] at hw hrep ⊢
+  obtain ⟨pre, hpre⟩ : ∃ pre, pre = src.take p := ⟨_, rfl⟩
+  obtain ⟨A, hA⟩ : ∃ A, A = (src.drop p).take (q - p) := ⟨_, rfl⟩
+  obtain ⟨post, hpost⟩ : ∃ post, post = src.drop (q + L) := ⟨_, rfl⟩
+  obtain ⟨k, hk⟩ : ∃ k, k = L / (q - p) := ⟨_, rfl⟩
+  obtain ⟨bp, hbp⟩ : ∃ bp, bp = L % (q - p) := ⟨_, rfl⟩
+  have hneA : NoEnd A := by rw [hA]; exact noEnd_take (noEnd_drop hne p) _
+  obtain ⟨c0, b0, f0⟩ := forest_of_scan (l := A.take bp) (noEnd_take hneA bp) (by rw [hA, hbp]; exact hw.bal0)
+  obtain ⟨c1, b1, f1⟩ := forest_of_scan (l := A.drop bp) (noEnd_drop hneA bp) (by rw [hA, hbp]; exact hw.bal1)
+  -- the song with the later copies replaced by exact copies of `A`
+  let src1 := pre ++ (A ++ (List.replicate k A).flatten ++ A.take bp) ++ post
+  have hn1 : normL src1 = normL src := by
+    have hs := split4 src p q L (Nat.le_of_lt hpq)
+    have hper := hw.per
+    rw [← hA, ← hk, ← hbp] at hper
+    conv => rhs; rw [hs]
+    simp only [src1, normL, List.map_append, ← hpre, ← hA, ← hpost] at hper ⊢
+    rw [hper]
+    simp [List.append_assoc]
+  have hb : BrkEqv song (setTrack song bm.trackId src1) := by
+    intro id
+    rw [track?_setTrack hsrc]
+    split
+    · rename_i h; subst h; rw [hsrc]; simp [hn1]
+    · rfl
+  refine ⟨setTrack song bm.trackId src1, hb, ?_⟩
+  by_cases hb0 : bp = 0
+  · -- no remainder: `A^(k+1) ↦ [A](k+1)`
+    obtain ⟨cA, bA, fA⟩ := forest_of_scan hneA (by rw [hA]; exact hw.balA)
+    have hfold : foldedTrack src p q L = pre ++ fold0X' (parse A) lsEv (leEv ((k : Int) + 1)) ++ post := by
+      rw [foldedTrack_nobreak hpq hw.len (by rw [← hbp]; exact hb0) hrep, ← hpre, ← hA, ← hpost, ← hk]
+      simp [fold0X', fA]
+    have hsrc1 : src1 = pre ++ fold0X (parse A) k ++ post := by
+      rw [fold0X, flattenL_replicate, fA, List.replicate_succ, List.flatten_cons]
+      simp only [src1, hb0, List.take_zero, List.append_nil]
+    refine Step.fold0 (parse A) k lsEv (leEv ((k : Int) + 1))
+      ⟨cA, bA, lsEv_kind, leEv_kind _, ⟨rfl, rfl⟩, ⟨rfl, rfl⟩, rfl⟩ ?_
+    intro id evs he
+    rw [track?_setTrack hsrc] at he ⊢
+    split at he
+    · rename_i h
+      simp only [h, if_true]
+      cases he
+      refine ⟨_, rfl, ?_⟩
+      rw [hfold, hsrc1, fold0DstX_eq]
+      exact ERel.ctx _ _ pre post
+    · rename_i h
+      simp only [h, if_false]
+      exact ⟨evs, he, ERel.refl _ _ _⟩
+  · -- remainder: `A·A^k·A0 ↦ [A0 / A1](k+2)`
+    have hfold : foldedTrack src p q L =
+        pre ++ foldX' (parse (A.take bp)) (parse (A.drop bp)) lsEv lbEv (leEv ((k : Int) + 2)) ++ post := by
+      rw [foldedTrack_break hpq hw.len (by rw [← hbp]; exact hb0) hrep, ← hpre, ← hA, ← hpost, ← hk, ← hbp]
+      simp [foldX', f0, f1]
+    have hsrc1 : src1 = pre ++ foldX (parse (A.take bp)) (parse (A.drop bp)) k ++ post := by
+      simp only [src1, foldX, flattenL_replicate, flattenL_append, f0, f1, List.take_append_drop]
+    refine Step.fold (parse (A.take bp)) (parse (A.drop bp)) k lsEv lbEv (leEv ((k : Int) + 2))
+      ⟨c0, c1, b0, b1, lsEv_kind, lbEv_kind, leEv_kind _, ⟨rfl, rfl⟩, ⟨rfl, rfl⟩, ⟨rfl, rfl⟩, rfl⟩ ?_
+    intro id evs he
+    rw [track?_setTrack hsrc] at he ⊢
+    split at he
+    · rename_i h
+      simp only [h, if_true]
+      cases he
+      refine ⟨_, rfl, ?_⟩
+      rw [hfold, hsrc1, foldX_eq, foldDstX_eq]
+      exact ERel.ctx _ _ pre post
+    · rename_i h
+      simp only [h, if_false]
+      exact ⟨evs, he, ERel.refl _ _ _⟩
+
+/-! ## passes of `Opt.optimize` that fold loops -/
+
+/-- the `Song_Validator` run after every pass rejects (at least) songs one of whose tracks runs
+out of stack frames -/
+def ValidOK (valid : Song → Bool) : Prop :=
+  ∀ s, valid s = true → ∀ id t, s.track? id = some t → perf s t ≠ .error .depth
+
+/-- the validator of the property: every track of the song validates -/
+def validAll (s : Song) : Bool :=
+  s.tracks.all fun p => match perf s p.2 with | .ok _ => true | .error _ => false
+
+theorem validAll_ok {s : Song} (h : validAll s = true) {id : Nat} {t : List Event} (ht : s.track? id = some t) :
+    ∃ items, perf s t = .ok items := by
+  have := List.all_eq_true.1 h (id, t) (mem_of_lookup ht)
+  simp only at this
+  split at this
+  · rename_i x hx; exact ⟨x, hx⟩
+  · simp at this
+
+theorem validAll_validOK : ValidOK validAll := by
+  intro s h id t ht
+  obtain ⟨x, hx⟩ := validAll_ok h ht
+  rw [hx]; simp
+
+/-- **One pass of `find_best_match` that takes the loop branch** (or finds nothing) is a loop
+fold up to `LOOP_BREAK` params, and keeps the song well formed. -/
+theorem pass_loop_is_step {song : Song} {m : SAMap} {subId : Int} {s' : Song} {best : Match} {subId' : Int}
+    (hwf : SongWF song) (hfb : findBestMatch song m subId = .ok (s', best, subId'))
+    (hl : ¬ best.loopScore < best.subScore) :
+    (s' = song ∨ StepN song s') ∧ SongWF s' ∧ subId' = subId := by
+  rcases findBestMatch_spec hfb with ⟨_, h1, h2⟩ | ⟨_, ⟨srcT, srcPos, hfm⟩, m', happ⟩
+  · exact ⟨Or.inl h1, h1 ▸ hwf, h2⟩
+  · obtain ⟨_, _, hss, hlo⟩ := findMatch_spec hwf.nodup hfm
+    have hne : best.loopLength ≠ 0 := by
+      unfold Match.loopScore at hl
+      omega
+    have hok := hlo hne
+    obtain ⟨len0, hf⟩ := hok.fml
+    obtain ⟨src, _, hsrc, _, _⟩ := findMatchLength_spec hf
+    obtain ⟨w1, w2, w3⟩ := hwf.track hsrc
+    have hw := hok.window hsrc w2
+    have hrep := repeats_small hok.lt hw.len w3
+    obtain ⟨S', happ', hstep, hS'⟩ := applyMatch_loop_is_step (subId := subId) hok hl hsrc w1 w2 hrep
+    rw [happ'] at happ
+    simp only [Except.ok.injEq, Prod.mk.injEq] at happ
+    obtain ⟨rfl, _, rfl⟩ := happ
+    refine ⟨Or.inr hstep, ?_, rfl⟩
+    rw [hS']
+    have hL : 3 ≤ best.loopLength := by have := hok.minLen; rw [minLoopScore_eq] at this; exact this
+    obtain ⟨f1, f2, f3⟩ := foldedTrack_wf hok.lt hw.len hL hrep w1 w2
+    exact hwf.setTrack hsrc f1 f2 (by omega)
+
+theorem optimize_passes_prefix (valid : Song → Bool) (minScore : Int) :
+    ∀ (fuel : Nat) (song : Song) (subId : Int) (acc : List Match) (r : OptResult),
+    optimize valid minScore fuel song subId acc = .ok r → ∃ ps, r.passes = acc ++ ps := by
+  intro fuel
+  induction fuel with
+  | zero => intro song subId acc r h; simp [optimize] at h
+  | succ fuel ih =>
+    intro song subId acc r h
+    unfold optimize at h
+    obtain ⟨m, _, h⟩ := bind_ok h
+    obtain ⟨x, _, h⟩ := bind_ok h
+    obtain ⟨s', best, subId'⟩ := x
+    simp only at h
+    split at h
+    · simp only [pure, Except.pure, Except.ok.injEq] at h
+      exact ⟨[best], by rw [← h]⟩
+    · split at h
+      · obtain ⟨ps, hps⟩ := ih _ _ _ _ h
+        exact ⟨best :: ps, by rw [hps]; simp⟩
+      · simp only [pure, Except.pure, Except.ok.injEq] at h
+        exact ⟨[best], by rw [← h]⟩
+
+/-- a run of `Opt.optimize` all of whose passes take the loop branch is a chain of loop folds
+(up to `LOOP_BREAK` params) through songs that the validator accepts -/
+theorem optimize_loop_chain (valid : Song → Bool) (minScore : Int) :
+    ∀ (fuel : Nat) (song : Song) (subId : Int) (acc : List Match) (r : OptResult),
+    SongWF song → optimize valid minScore fuel song subId acc = .ok r → r.validated = true →
+    (∀ bm ∈ r.passes.drop acc.length, ¬ bm.loopScore < bm.subScore) →
+    ∃ l, chainN song l ∧ lastSong song l = r.song ∧ (∀ T ∈ l, valid T = true) ∧ SongWF r.song := by
+  intro fuel
+  induction fuel with
+  | zero => intro song subId acc r _ h; simp [optimize] at h
+  | succ fuel ih =>
+    intro song subId acc r hwf h hv hloop
+    obtain ⟨ps, hps⟩ := optimize_passes_prefix valid minScore _ _ _ _ _ h
+    unfold optimize at h
+    obtain ⟨m, _, h⟩ := bind_ok h
+    obtain ⟨x, hfb, h⟩ := bind_ok h
+    obtain ⟨s', best, subId'⟩ := x
+    simp only at h
+    split at h
+    · simp only [pure, Except.pure, Except.ok.injEq] at h
+      rw [← h] at hv; simp at hv
+    · rename_i hval
+      have hval' : valid s' = true := by simpa using hval
+      -- `best` is the first pass after `acc`
+      have hbest : ¬ best.loopScore < best.subScore := by
+        apply hloop
+        split at h
+        · obtain ⟨ps', hps'⟩ := optimize_passes_prefix valid minScore _ _ _ _ _ h
+          rw [hps']; simp
+        · simp only [pure, Except.pure, Except.ok.injEq] at h
+          rw [← h]; simp
+      obtain ⟨hstep, hwf', _⟩ := pass_loop_is_step hwf hfb hbest
+      split at h
+      · obtain ⟨l, hc, hlast, hall, hwfr⟩ := ih s' subId' (acc ++ [best]) r hwf' h hv (by
+          intro bm hbm
+          apply hloop
+          have : List.drop (acc ++ [best]).length r.passes = List.drop 1 (List.drop acc.length r.passes) := by
+            rw [List.drop_drop]; simp
+          rw [this] at hbm
+          exact List.mem_of_mem_drop hbm)
+        rcases hstep with rfl | hstep
+        · exact ⟨l, hc, hlast, hall, hwfr⟩
+        · refine ⟨s' :: l, ⟨hstep, hc⟩, hlast, ?_, hwfr⟩
+          intro T hT
+          rcases List.mem_cons.1 hT with rfl | hT
+          · exact hval'
+          · exact hall T hT
+      · simp only [pure, Except.pure, Except.ok.injEq] at h
+        subst h
+        rcases hstep with rfl | hstep
+        · exact ⟨[], trivial, rfl, by simp, hwf'⟩
+        · exact ⟨[s'], ⟨hstep, trivial⟩, rfl, by simpa using hval', hwf'⟩
+
+/-- **C01 for runs of the optimiser that only fold loops** (`_partial`: the extra hypothesis is
+`hloop`, every pass took the loop branch of `apply_match`).  For every well-formed song (distinct
+track ids, no explicit `END` event, `LOOP_BREAK`s without duration, tracks shorter than 32767
+events) all of whose tracks validate, every threshold `minScore` and every fuel: if
+`Opt.optimize` with the validator "every track validates" returns normally with
+`validated = true`, then every original track still validates in the optimised song and is
+observed the same (what is played with durations, total length, loop-point time). -/
+theorem C01_optimize_preserves_partial (song : Song) (minScore : Int) (fuel : Nat) (r : OptResult)
+    (hwf : SongWF song) (hok : ∀ id, song.track? id ≠ none → okTrack song id)
+    (hr : optimize validAll minScore fuel song (initialSubId song) [] = .ok r) (hv : r.validated = true)
+    (hloop : ∀ bm ∈ r.passes, ¬ bm.loopScore < bm.subScore)
+    (id : Nat) (hid : song.track? id ≠ none) :
+    okTrack r.song id ∧ obsOf r.song id = obsOf song id := by
+  obtain ⟨l, hc, hlast, hall, _⟩ := optimize_loop_chain validAll minScore fuel song _ [] r hwf hr hv
+    (by simpa using hloop)
+  rw [← hlast]
+  exact C01_passesN_preserve_nodepth song l hc id (hok id hid)
+    (fun T hT t' ht' => validAll_validOK T (hall T hT) id t' ht')
+
+/-! ## the subroutine branch of `apply_match` is a subroutine extraction -/
+
+/-- from the invariant of `find_subroutines` to an extraction step (up to `LOOP_BREAK` params):
+the intermediate song `S1` is the original one with every replaced occurrence made an exact copy
+of the phrase -/
+theorem stepN_of_subInv {song s3 : Song} {Xl : List Event} {subId : Int}
+    (hinv : SubInv song Xl (jumpEvent subId) (trackIdOfParam subId) s3)
+    (hfresh : song.track? (trackIdOfParam subId) = none)
+    (hne : NoEnd Xl) (hbal : scan Xl 0 = some 0) : StepN song s3 := by
+  obtain ⟨cX, bX, fX⟩ := forest_of_scan hne hbal
+  let j := jumpEvent subId
+  let X := parse Xl
+  let good : Nat → List Event → List Event → Prop := fun id evs evs1 =>
+    (∃ evs3, s3.track? id = some evs3 ∧ ERel X [.ev j] evs1 evs3) ∧ normL evs1 = normL evs
+  have hgood : ∀ id evs, song.track? id = some evs → ∃ evs1, good id evs evs1 := by
+    intro id evs he
+    have hid : id ≠ trackIdOfParam subId := by intro h; rw [h, hfresh] at he; cases he
+    rcases hinv.rel id hid with ⟨h1, _⟩ | ⟨evs0, evs', h1, h2, h3, _⟩
+    · rw [h1] at he; cases he
+    · rw [h1] at he; cases he
+      obtain ⟨evs1, g1, g2⟩ := h3.toERel (X := X) fX
+      exact ⟨evs1, ⟨evs', h2, g2⟩, g1⟩
+  have hgood' : ∀ id evs, ∃ evs1, song.track? id = some evs → good id evs evs1 := by
+    intro id evs
+    by_cases he : song.track? id = some evs
+    · obtain ⟨evs1, h1⟩ := hgood id evs he
+      exact ⟨evs1, fun _ => h1⟩
+    · exact ⟨evs, fun h => absurd h he⟩
+  let f : Nat → List Event → List Event := fun id evs => Classical.choose (hgood' id evs)
+  have hf : ∀ id evs, song.track? id = some evs → good id evs (f id evs) :=
+    fun id evs he => Classical.choose_spec (hgood' id evs) he
+  let S1 : Song := { tracks := song.tracks.map fun p => (p.1, f p.1 p.2) }
+  have hS1 : ∀ id, S1.track? id = (song.track? id).map (f id) := fun id => lookup_map_snd _ _ _
+  refine ⟨S1, ?_, ?_⟩
+  · intro id
+    rw [hS1]
+    cases he : song.track? id with
+    | none => rfl
+    | some evs =>
+      simp only [Option.map_some, Option.some.injEq]
+      exact (hf id evs he).2
+  · refine Step.extract X j ⟨cX, bX, jumpEvent_kind subId, ⟨rfl, rfl⟩⟩ ?_ ?_ ?_
+    · rw [hS1]; simp only [j]; rw [show (jumpEvent subId).param = subId from rfl, hfresh]; rfl
+    · show s3.track? (trackIdOfParam subId) = some (flattenL X)
+      rw [fX]; exact hinv.sub
+    · intro id evs1 he1
+      rw [hS1] at he1
+      cases he : song.track? id with
+      | none => rw [he] at he1; cases he1
+      | some evs =>
+        rw [he] at he1
+        simp only [Option.map_some, Option.some.injEq] at he1
+        rw [← he1]
+        exact (hf id evs he).1
+
+/-- **The subroutine branch of `apply_match` is one subroutine extraction** (`Step.extract`, any
+number of occurrences in any tracks), up to `LOOP_BREAK` params: the new track `(subId, X)` with
+`X` the balanced `subLength`-prefix at `position`, that occurrence replaced by the `JUMP`, and every
+further replacement made by `find_subroutines` an occurrence of the same phrase up to
+`LOOP_BREAK` params (`findMatchLength_spec` with `len = subLength`).
+
+Hypotheses: the subroutine branch is taken; the song is well formed; `subId` is fresh (no track
+with that id) and not called anywhere (`hnoj`; follows from freshness for a song all of whose
+tracks validate, `noJump_of_valid`); the phrase lies within the track and is balanced (`hbal`;
+`findMatch_subOK` shows that the match `find_match` returns has this property).  (The model
+inserts the new track into the id-ordered track list with the library's `Array.qsort`;
+`OptSteps.qsortPerm_of_core` proves that it returns a permutation.) -/
+theorem applyMatch_sub_is_step {song : Song} {m : SAMap} {bm : Match} {subId : Int}
+    {src : List Event} (hwf : SongWF song)
+    (hbr : bm.loopScore < bm.subScore) (hsrc : song.track? bm.trackId = some src)
+    (hfresh : song.track? (trackIdOfParam subId) = none)
+    (hnoj : ∀ e ∈ src, e ≠ jumpEvent subId)
+    (hlen : bm.position + bm.subLength ≤ src.length)
+    (hbal : scan ((src.drop bm.position).take bm.subLength) 0 = some 0)
+    {s3 : Song} {m3 : SAMap} {subId' : Int} (h : applyMatch song m bm subId = .ok (s3, m3, subId')) :
+    StepN song s3 ∧ subId' = wrap16 (subId + 1) ∧
+      SubInv song ((src.drop bm.position).take bm.subLength) (jumpEvent subId) (trackIdOfParam subId) s3 := by
+  obtain ⟨w1, w2, _⟩ := hwf.track hsrc
+  obtain ⟨hinv, hid⟩ := applyMatch_sub_inv qsortPerm_of_core hwf.nodup hbr hsrc w2 hfresh
+    (fun id t ht => (hwf.track ht).2.1) hlen h
+    (fun x hx => hnoj x (List.mem_of_mem_drop (List.mem_of_mem_take hx)))
+  exact ⟨stepN_of_subInv hinv hfresh (noEnd_take (noEnd_drop w1 _) _) hbal, hid, hinv⟩
+
+/-! ## every pass of `Opt.optimize` is a step; the whole run -/
+
+theorem validAll_of_ok {song : Song} (hnd : (song.tracks.map (·.1)).Nodup)
+    (hok : ∀ id, song.track? id ≠ none → okTrack song id) : validAll song = true := by
+  unfold validAll
+  rw [List.all_eq_true]
+  intro p hp
+  have hlk : song.track? p.1 = some p.2 := lookup_of_mem_nodup hnd (by simpa using hp)
+  obtain ⟨t, items, ht, hpf⟩ := hok p.1 (by rw [hlk]; simp)
+  rw [hlk] at ht
+  cases ht
+  simp [hpf]
+
+/-- a fresh subroutine id is not called anywhere in a song all of whose tracks validate -/
+theorem noJump_of_valid {song : Song} {subId : Int} (hwf : SongWF song) (hval : validAll song = true)
+    (hfresh : song.track? (trackIdOfParam subId) = none) {id : Nat} {t : List Event}
+    (ht : song.track? id = some t) : ∀ e ∈ t, e ≠ jumpEvent subId := by
+  intro e he hej
+  obtain ⟨items, hp⟩ := validAll_ok hval ht
+  have := jump_target_exists (hwf.track ht).1 hp he (by rw [hej]; exact jumpEvent_kind subId)
+  rw [hej] at this
+  exact this hfresh
+
+/-- **One pass of `find_best_match` (`find_match` over every position, then `apply_match`) is a
+step**: nothing (score 0), a loop fold, or a subroutine extraction — up to `LOOP_BREAK` params — and
+it keeps the song well formed and the next subroutine id fresh. -/
+theorem pass_is_step {song : Song} {m : SAMap} {subId : Int} {s' : Song} {best : Match} {subId' : Int}
+    (hwf : SongWF song) (hfr : FreshInv song subId) (hval : validAll song = true) (hnext : subId + 1 < 32768)
+    (hfb : findBestMatch song m subId = .ok (s', best, subId')) :
+    (s' = song ∨ StepN song s') ∧ SongWF s' ∧ FreshInv s' subId' ∧ subId' ≤ subId + 1 := by
+  by_cases hl : best.loopScore < best.subScore
+  · rcases findBestMatch_spec hfb with ⟨_, h1, h2⟩ | ⟨hbs, ⟨srcT, srcPos, hfm⟩, m', happ⟩
+    · exact ⟨Or.inl h1, h1 ▸ hwf, by rw [h1, h2]; exact hfr, by omega⟩
+    · obtain ⟨ht, hp, hss, _⟩ := findMatch_spec hwf.nodup hfm
+      obtain ⟨src, hsrc⟩ := findMatch_track hfm
+      have hpos : 0 < best.subScore := by
+        unfold Match.bestScore at hbs
+        rw [if_pos hl] at hbs
+        omega
+      have hso := findMatch_subOK hsrc hfm hpos
+      obtain ⟨hlen, hbal⟩ := subOK_balanced hsrc hso
+      have hsrc' : song.track? best.trackId = some src := by rw [ht]; exact hsrc
+      rw [← hp] at hlen hbal
+      have hfresh := hfr.track_none
+      obtain ⟨hstep, hid, hinv⟩ := applyMatch_sub_is_step hwf hl hsrc' hfresh
+        (noJump_of_valid hwf hval hfresh hsrc') hlen hbal happ
+      obtain ⟨g1, g2⟩ := subPass_wf qsortPerm_of_core hwf hfr hnext hl hsrc' hlen hso.1 happ hinv
+      have hw : wrap16 (subId + 1) = subId + 1 := wrap16_small (by have := hfr.lo; omega) hnext
+      rw [hw] at hid
+      exact ⟨Or.inr hstep, g1, by rw [hid]; exact g2, by omega⟩
+  · obtain ⟨h1, h2, h3⟩ := pass_loop_is_step hwf hfb hl
+    refine ⟨h1, h2, ?_, by omega⟩
+    rw [h3]
+    rcases findBestMatch_spec hfb with ⟨_, g1, _⟩ | ⟨_, ⟨srcT, srcPos, hfm⟩, m', happ⟩
+    · rw [g1]; exact hfr
+    · -- the loop branch rewrites an existing track
+      obtain ⟨_, _, hss, hlo⟩ := findMatch_spec hwf.nodup hfm
+      have hne : best.loopLength ≠ 0 := by
+        unfold Match.loopScore at hl
+        omega
+      have hok := hlo hne
+      obtain ⟨len0, hf⟩ := hok.fml
+      obtain ⟨src, _, hsrc, _, _⟩ := findMatchLength_spec hf
+      rw [applyMatch_loop_eq hsrc hl] at happ
+      simp only [Except.ok.injEq, Prod.mk.injEq] at happ
+      rw [← happ.1]
+      exact hfr.setTrack hsrc _
+
+/-- a run of `Opt.optimize` (with a validator that accepts only songs all of whose tracks
+validate) is a chain of steps through songs that validate -/
+theorem optimize_chain (valid : Song → Bool) (hvalid : ∀ s, valid s = true → validAll s = true)
+    (minScore : Int) :
+    ∀ (fuel : Nat) (song : Song) (subId : Int) (acc : List Match) (r : OptResult),
+    SongWF song → FreshInv song subId → validAll song = true →
+    optimize valid minScore fuel song subId acc = .ok r → r.validated = true →
+    subId + ((r.passes.length - acc.length : Nat) : Int) < 32768 →
+    ∃ l, chainN song l ∧ lastSong song l = r.song ∧ (∀ T ∈ l, validAll T = true) ∧ SongWF r.song := by
+  intro fuel
+  induction fuel with
+  | zero => intro song subId acc r _ _ _ h; simp [optimize] at h
+  | succ fuel ih =>
+    intro song subId acc r hwf hfr hval h hv hcnt
+    obtain ⟨ps, hps⟩ := optimize_passes_prefix valid minScore _ _ _ _ _ h
+    unfold optimize at h
+    obtain ⟨m, _, h⟩ := bind_ok h
+    obtain ⟨x, hfb, h⟩ := bind_ok h
+    obtain ⟨s', best, subId'⟩ := x
+    simp only at h
+    split at h
+    · simp only [pure, Except.pure, Except.ok.injEq] at h
+      rw [← h] at hv; simp at hv
+    · rename_i hvs
+      have hval' : validAll s' = true := hvalid s' (by simpa using hvs)
+      -- at least this pass remains
+      have hps1 : 1 ≤ ps.length := by
+        split at h
+        · obtain ⟨ps', hps'⟩ := optimize_passes_prefix valid minScore _ _ _ _ _ h
+          have : acc ++ ps = acc ++ [best] ++ ps' := by rw [← hps, hps']
+          have := congrArg List.length this
+          simp only [List.length_append, List.length_cons, List.length_nil] at this
+          omega
+        · simp only [pure, Except.pure, Except.ok.injEq] at h
+          have : acc ++ ps = acc ++ [best] := by rw [← hps, ← h]
+          have := congrArg List.length this
+          simp only [List.length_append, List.length_cons, List.length_nil] at this
+          omega
+      have hlen : r.passes.length - acc.length = ps.length := by rw [hps]; simp
+      rw [hlen] at hcnt
+      obtain ⟨hstep, hwf', hfr', hid⟩ := pass_is_step hwf hfr hval (by omega) hfb
+      split at h
+      · obtain ⟨l, hc, hlast, hall, hwfr⟩ := ih s' subId' (acc ++ [best]) r hwf' hfr' hval' h hv (by
+          have : r.passes.length - (acc ++ [best]).length = ps.length - 1 := by
+            rw [hps]; simp; omega
+          rw [this]
+          omega)
+        rcases hstep with rfl | hstep
+        · exact ⟨l, hc, hlast, hall, hwfr⟩
+        · refine ⟨s' :: l, ⟨hstep, hc⟩, hlast, ?_, hwfr⟩
+          intro T hT
+          rcases List.mem_cons.1 hT with rfl | hT
+          · exact hval'
+          · exact hall T hT
+      · simp only [pure, Except.pure, Except.ok.injEq] at h
+        subst h
+        rcases hstep with rfl | hstep
+        · exact ⟨[], trivial, rfl, by simp, hwf'⟩
+        · exact ⟨[s'], ⟨hstep, trivial⟩, rfl, by simpa using hval', hwf'⟩
+
+/-- **C01, preservation, for the executable model of the whole optimiser.**  For every well-formed
+song (track list in id order without duplicates and ids below 32767, no explicit `END` event,
+`LOOP_BREAK`s without duration, tracks shorter than 32767 events) all of whose tracks validate,
+every threshold `minScore` and every fuel: if `Opt.optimize` — stack analysis, `find_best_match`,
+`apply_match` (loop folds and subroutine extractions), after every pass a validator `valid` that
+accepts only songs all of whose tracks validate (`hvalid`; for the `Song_Validator` of the real
+code this is `C04_validator_rejects`) — returns normally with `validated = true`, and the
+subroutine ids it hands out
+stay within `int16_t` (`hcnt`: at most one id per pass; defect D3's neighbourhood), then every
+original track still validates in the optimised song and is observed the same: what is played
+with durations, total length, loop-point time. -/
+theorem C01_optimize_preserves (valid : Song → Bool) (hvalid : ∀ s, valid s = true → validAll s = true)
+    (song : Song) (minScore : Int) (fuel : Nat) (r : OptResult)
+    (hwf : SongWF song) (hsorted : (song.tracks.map (·.1)).Pairwise (· < ·))
+    (hids : ∀ p ∈ song.tracks, p.1 < 32767)
+    (hok : ∀ id, song.track? id ≠ none → okTrack song id)
+    (hr : optimize valid minScore fuel song (initialSubId song) [] = .ok r) (hv : r.validated = true)
+    (hcnt : initialSubId song + (r.passes.length : Int) < 32768)
+    (id : Nat) (hid : song.track? id ≠ none) :
+    okTrack r.song id ∧ obsOf r.song id = obsOf song id := by
+  obtain ⟨l, hc, hlast, hall, _⟩ := optimize_chain valid hvalid minScore fuel song _ [] r hwf
+    (initialSubId_fresh hsorted hids) (validAll_of_ok hwf.nodup hok) hr hv (by simpa using hcnt)
+  rw [← hlast]
+  exact C01_passesN_preserve_nodepth song l hc id (hok id hid)
+    (fun T hT t' ht' => validAll_validOK T (hall T hT) id t' ht')
+
+end Ctrmml.C01
+
+/-! ## termination of the pass loop -/
+namespace Ctrmml.C01
+open Ctrmml Ctrmml.Tree Ctrmml.Expand Ctrmml.Rewrite Ctrmml.Opt Ctrmml.OptSteps Tables
+
+/-- **A pass that folds a loop strictly decreases the termination measure** `(number of events,
+number of events that are not loop brackets/breaks)` lexicographically: it erases `L ≥ 3` events,
+the first of which is not a bracket, and inserts 2 or 3 brackets. -/
+theorem C01_fold_pass_decreases {song : Song} {m : SAMap} {subId : Int} {s' : Song} {best : Match} {subId' : Int}
+    (hwf : SongWF song) (hfb : findBestMatch song m subId = .ok (s', best, subId'))
+    (hl : ¬ best.loopScore < best.subScore) (hs : 1 ≤ best.bestScore) :
+    totalEvents s' < totalEvents song ∨
+      (totalEvents s' = totalEvents song ∧ playedEvents s' < playedEvents song) := by
+  rcases findBestMatch_spec hfb with ⟨h0, _, _⟩ | ⟨_, ⟨srcT, srcPos, hfm⟩, m', happ⟩
+  · omega
+  obtain ⟨_, _, hss, hlo⟩ := findMatch_spec hwf.nodup hfm
+  have hL3 : 3 ≤ best.loopLength := by
+    unfold Match.bestScore at hs
+    unfold Match.loopScore at hl hs
+    split at hs <;> omega
+  have hok := hlo (by omega)
+  obtain ⟨len0, hf⟩ := hok.fml
+  obtain ⟨src, _, hsrc, _, _⟩ := findMatchLength_spec hf
+  obtain ⟨w1, w2, w3⟩ := hwf.track hsrc
+  have hw := hok.window hsrc w2
+  have hrep := repeats_small hok.lt hw.len w3
+  rw [applyMatch_loop_eq hsrc hl] at happ
+  simp only [Except.ok.injEq, Prod.mk.injEq] at happ
+  rw [← happ.1]
+  obtain ⟨p, hp⟩ : ∃ p, p = best.position := ⟨_, rfl⟩
+  obtain ⟨q, hq⟩ : ∃ q, q = best.loopPosition := ⟨_, rfl⟩
+  obtain ⟨L, hL⟩ : ∃ L, L = best.loopLength := ⟨_, rfl⟩
+  have hpq : p < q := by rw [hp, hq]; exact hok.lt
+  rw [← hL] at hL3
+  rw [← hp, ← hq, ← hL] at hw hrep ⊢
+  -- the erased events
+  have hBlen : ((src.drop q).take L).length = L := by
+    rw [List.length_take, List.length_drop]; have := hw.len; omega
+  obtain ⟨e, he, hpl⟩ := hw.plain
+  have hB1 : 1 ≤ wsum (fun e => if isBracket e then 0 else 1) ((src.drop q).take L) := by
+    have : (src.drop q).take L = e :: ((src.drop q).drop 1).take (L - 1) := by
+      have h1 : (src.drop q).take L = (src.drop q).take (0 + 1) ++ ((src.drop q).drop (0 + 1)).take (L - 1) := by
+        rw [← List.take_add]; congr 1; omega
+      rw [take_succ_of_get (j := 0) (by simpa using he)] at h1
+      simpa using h1
+    rw [this, wsum_cons]
+    have : isBracket e = false := by
+      unfold isBracket
+      simp [hpl.1, hpl.2.1, hpl.2.2]
+    simp [this]
+  -- both weights
+  have t1 := songW_setTrack (fun _ => 1) hwf.nodup hsrc (foldedTrack src p q L)
+  have t2 := foldedTrack_weight (fun _ => 1) hpq hw.len hrep
+  have n1 := songW_setTrack (fun e => if isBracket e then 0 else 1) hwf.nodup hsrc (foldedTrack src p q L)
+  have n2 := foldedTrack_weight (fun e => if isBracket e then 0 else 1) hpq hw.len hrep
+  simp only [isBracket_ls, isBracket_lb, isBracket_le, if_true] at n2
+  rw [wsum_one, wsum_one, wsum_one, hBlen] at t2
+  rw [wsum_one, wsum_one] at t1
+  unfold totalEvents playedEvents
+  by_cases hb : L % (q - p) = 0
+  · simp only [hb, ne_eq, not_true_eq_false, if_false] at t2 n2
+    left; omega
+  · simp only [hb, ne_eq, not_false_eq_true, if_true] at t2 n2
+    by_cases h4 : 4 ≤ L
+    · left; omega
+    · right
+      constructor <;> omega
+
+/-- **Termination of the optimiser** — NOT proved.  The statement: for `0 ≤ minScore` the pass loop
+of `Opt.optimize` ends on every well-formed song, i.e. with enough fuel the run does not end in
+`.error .fuel`.
+
+What is proved of it: `C01_fold_pass_decreases` — a pass that folds a loop strictly decreases the
+measure `(totalEvents, playedEvents)`.  What is missing:
+* the same for a pass that extracts a subroutine: it has to be shown that `find_subroutines`
+  replaces at least the `subRepeats` occurrences `find_match` counted (then the pass removes
+  exactly `score ≥ 1` events net); `find_match` counts matches of length `≥ subLength` while
+  `find_subroutines` asks for `find_match_length = subLength` on the mutated song with a spliced
+  stack list, so this is a correspondence between two different searches;
+* `Opt.analyzeTrack` reports the exhaustion of its own recursion budget (`tracks.length + 2`)
+  with the same `OErr.fuel`; that this budget is never exhausted (the `parsing` guard bounds the
+  recursion by the number of distinct call parameters) is not proved. -/
+def C01_optimize_terminates_statement : Prop :=
+  ∀ (song : Song) (minScore : Int), 0 ≤ minScore → SongWF song →
+    (song.tracks.map (·.1)).Pairwise (· < ·) → (∀ p ∈ song.tracks, p.1 < 32767) →
+    ∀ fuel, (totalEvents song + 1) * (totalEvents song + 1) < fuel →
+      optimize validAll minScore fuel song (initialSubId song) [] ≠ .error .fuel
+
+end Ctrmml.C01
+
+/-! ## concrete instances for layers 2–3
+
+The hypotheses of the theorems above are satisfiable by concrete songs; where the kernel can
+evaluate the model (everything except the stack analysis, whose recursion is well-founded, and the
+library quicksort) the conclusions are checked by evaluation. -/
+namespace Ctrmml.C01.Ex2
+open Ctrmml Ctrmml.Tree Ctrmml.Expand Ctrmml.Rewrite Ctrmml.Opt Ctrmml.OptSteps Tables
+
+instance (l : List Event) : Decidable (NoEnd l) := by unfold NoEnd; infer_instance
+instance (l : List Event) : Decidable (BrkZero l) := by unfold BrkZero; infer_instance
+
+def n (k : Int) : Event := ⟨ev_NOTE, k, 6, 0⟩
+def okv {α : Type} (r : Except OErr α) : Option α := match r with | .ok a => some a | .error _ => none
+
+/-- six equal notes: `find_best_match` folds them into `[c]6` -/
+def songL : Song := { tracks := [(0, [n 1, n 1, n 1, n 1, n 1, n 1])] }
+def mL : SAMap := [(0, { eventList := [0, 0, 0, 0, 0, 0] })]
+def bmL : Match := { trackId := 0, position := 0, loopPosition := 1, loopLength := 5 }
+
+example : okv ((findBestMatch songL mL 15000).map fun r => (r.1.tracks, r.2.1, r.2.2)) =
+    some ([(0, [lsEv, n 1, leEv 6])], bmL, 15000) := by decide +kernel
+
+theorem wfL : SongWF songL := by
+  refine ⟨by decide, ?_⟩
+  intro p hp
+  simp only [songL, List.mem_singleton] at hp
+  subst hp
+  exact ⟨by decide, by decide, by decide⟩
+
+theorem loopOK_L : LoopOK songL mL bmL := by
+  refine ⟨by decide, by decide, by decide, ⟨5, by rfl⟩, ?_⟩
+  intro src hsrc
+  have : src = [n 1, n 1, n 1, n 1, n 1, n 1] := by
+    have h : songL.track? 0 = some [n 1, n 1, n 1, n 1, n 1, n 1] := rfl
+    rw [show bmL.trackId = 0 from rfl, h] at hsrc
+    exact (Option.some.inj hsrc).symm
+  subst this
+  decide
+
+example : ∃ S', applyMatch songL mL bmL 15000 = .ok (S', mL, 15000) ∧ StepN songL S' := by
+  obtain ⟨S', h1, h2, _⟩ := applyMatch_loop_is_step (subId := 15000) loopOK_L (by decide)
+    (src := [n 1, n 1, n 1, n 1, n 1, n 1]) rfl (by decide) (by decide) (by decide)
+  exact ⟨S', h1, h2⟩
+
+/-- the hypotheses of `C01_optimize_preserves` are satisfiable: the run of the optimiser on
+`songL` (which the compiled model evaluates to `[c]6`, one loop-fold pass and one empty pass) -/
+example (r : OptResult) (hr : optimize validAll 0 5 songL (initialSubId songL) [] = .ok r)
+    (hv : r.validated = true) (hcnt : initialSubId songL + (r.passes.length : Int) < 32768) :
+    okTrack r.song 0 ∧ obsOf r.song 0 = obsOf songL 0 :=
+  C01_optimize_preserves validAll (fun _ h => h) songL 0 5 r wfL (by decide) (by decide)
+    (fun id hid => by
+      have : id = 0 := by
+        by_cases h : id = 0
+        · exact h
+        · exfalso; apply hid
+          have hb : (id == 0) = false := by simp [h]
+          simp [Song.track?, songL, List.lookup, hb]
+      subst this
+      exact ⟨_, List.replicate 6 (item (n 1)), rfl, by rfl⟩)
+    hr hv hcnt 0 (by decide)
+
+/-- a phrase of four notes in two tracks: `find_best_match` extracts it into track 15000 -/
+def songS : Song := { tracks := [(0, [n 1, n 2, n 3, n 4, n 9]), (1, [n 7, n 1, n 2, n 3, n 4])] }
+def mS : SAMap := [(0, { eventList := [0, 0, 0, 0, 0] }), (1, { eventList := [0, 0, 0, 0, 0] })]
+def bmS : Match := { trackId := 0, position := 0, subLength := 4, subRepeats := 1, subScore := 2 }
+
+theorem wfS : SongWF songS := by
+  refine ⟨by decide, ?_⟩
+  intro p hp
+  simp only [songS, List.mem_cons, List.not_mem_nil, or_false] at hp
+  rcases hp with rfl | rfl <;> exact ⟨by decide, by decide, by decide⟩
+
+/-- the hypotheses of `applyMatch_sub_is_step` are satisfiable (the compiled model evaluates
+`applyMatch songS mS bmS 15000` to the song `0: *15000 n9`, `1: n7 *15000`, `15000: n1 n2 n3 n4`
+and the next id 15001; the kernel cannot evaluate the library quicksort it goes through) -/
+example (s3 : Song) (m3 : SAMap) (id' : Int) (h : applyMatch songS mS bmS 15000 = .ok (s3, m3, id')) :
+    StepN songS s3 ∧ id' = 15001 := by
+  obtain ⟨h1, h2, _⟩ := applyMatch_sub_is_step (src := [n 1, n 2, n 3, n 4, n 9]) wfS (by decide) rfl
+    (by decide) (by decide) (by decide) (by decide) h
+  exact ⟨h1, by rw [h2]; decide⟩
+
+end Ctrmml.C01.Ex2
